@@ -116,6 +116,19 @@ func C09(run *report.Run) {
 			}
 		}
 	}
+	// (4) JSON request bodies: every schema kind × form (inline / ref / alias) × inline or component body
+	for _, c := range cells.SchemaCells() {
+		a := c.Attrs
+		if a["pos"] != "reqbody" {
+			continue
+		}
+		if a["null"] == "1" && run.Tier == "quick" {
+			continue
+		}
+		pl := &drv.C09Payload{Method: "POST", Template: "/p", Body: "json"}
+		pl.DiscProp, pl.VariantKeys, pl.Ambiguous = discInfo(c.Spec)
+		add(c.ID, c.Attrs, c.Spec, pl, "")
+	}
 	st := RunBatch(run, env, states, 250)
 	run.Cov["states"] = st.Healthy
 	run.Cov["transitions"] = st.Counters["calls"]
@@ -125,6 +138,6 @@ func C09(run *report.Run) {
 	run.Cov["masked_states"] = st.Masked
 	run.Cov["masked_why"] = st.MaskedWhy
 	run.Cov["enumerated_states"] = st.States
-	run.Cov["rule"] = "state = one operation (single parameter cells of every leaf kind × location × required × declaration form; name shapes per location; one parameter of each location of 5 kinds + body kinds under base-path forms), compiled with the client; transition = one value of the generated Params type enumerated by reflection (per-location string domains with reserved characters, boundary numbers, zoned times, arrays of 1-2 elements; full product up to 400 else single-group sweeps) sent with Client.<Op> through an in-memory transport that re-parses the wire URI; oracle = the handler's Parse() result equals the value sent, every wire parameter text lexes under its declared type, and kin-openapi's request validator accepts the request"
+	run.Cov["rule"] = "state = one operation (single parameter cells of every leaf kind × location × required × declaration form; name shapes per location; one parameter of each location of 5 kinds + body kinds under base-path forms; a JSON request body of every schema kind × ref/inline/alias form × inline/component body), compiled with the client; transition = one value of the generated Params type enumerated by reflection (per-location string domains with reserved characters, boundary numbers, zoned times, arrays of 1-2 elements; full product up to 400 else single-group sweeps) sent with Client.<Op> through an in-memory transport that re-parses the wire URI; oracle = the handler's Parse() result equals the value sent, every wire parameter text lexes under its declared type, and kin-openapi's request validator accepts the request"
 	run.Assumptions = []string{"§11 restrictions: path values non-empty and '/'-free, arrays non-empty, header strings visible ASCII without surrounding space, times compared as instants, no NaN/Inf"}
 }
